@@ -4,6 +4,13 @@ package main
 // tokenizer of golang.org/x/net/html (a dependency of the repository) and must show exactly the attributes / text
 // that went in.
 
+import (
+	"os"
+	"os/exec"
+	"path/filepath"
+	"strings"
+)
+
 const c01Harness = `package templ
 
 import (
@@ -148,7 +155,113 @@ func TestVerifReplayC01(t *testing.T) {
 }
 `
 
+// replayC01Gen: the generator of the tree under check on templates with a dynamic value at a text position and in
+// attributes of several shapes (plain, through templ.JSONString / fmt.Sprint, conditional, boolean neighbour); the
+// generated code is compiled and run with adversarial values and the output read back with the x/net/html tokenizer.
+func replayC01Gen(r *Run) *ReplayResult {
+	input := "templates with a dynamic value in text and attribute positions, generated by the real generator, compiled and rendered"
+	scratch, err := os.MkdirTemp("", "govc-c01gen-")
+	if err != nil {
+		return &ReplayResult{Input: input, Detail: "REPLAY-NOT-REPRODUCED (replay harness error: " + err.Error() + ")"}
+	}
+	defer os.RemoveAll(scratch)
+	gomod := "module verifgen\n\ngo 1.23.0\n\nrequire github.com/a-h/templ v0.0.0\n\nreplace github.com/a-h/templ => " + r.repo + "\n"
+	os.WriteFile(filepath.Join(scratch, "go.mod"), []byte(gomod), 0o644)
+	copyFile(filepath.Join(r.repo, "go.sum"), filepath.Join(scratch, "go.sum"))
+	copyFile(filepath.Join(r.verif, "corpusgen", "main.go.txt"), filepath.Join(scratch, "cmd", "corpusgen", "main.go"))
+	dir := filepath.Join(scratch, "corpus", "sinks")
+	os.MkdirAll(dir, 0o755)
+	tmpl := "package sinks\n\nimport \"fmt\"\n\ntempl Text(v string) {\n\t<div id=\"d\">{ v }</div>\n}\n\ntempl Attr(v string) {\n\t<div id=\"d\" data-v={ v }>x</div>\n}\n\ntempl AttrJSON(v string) {\n\t<div id=\"d\" data-v={ templ.JSONString(v) }>x</div>\n}\n\ntempl AttrSprint(v string) {\n\t<div id=\"d\" data-v={ fmt.Sprint(v) }>x</div>\n}\n\ntempl AttrCond(v string) {\n\t<div id=\"d\"\n\t\tif v != \"\" {\n\t\t\tdata-v={ v }\n\t\t}\n\t>x</div>\n}\n\ntempl AttrMixed(v string) {\n\t<input id=\"d\" disabled?={ v != \"\" } data-v={ v } title=\"t\"/>\n}\n"
+	os.WriteFile(filepath.Join(dir, "t.templ"), []byte(tmpl), 0o644)
+	test := `package sinks
+
+import (
+	"bytes"
+	"context"
+	"fmt"
+	"strings"
+	"testing"
+
+	"github.com/a-h/templ"
+	"golang.org/x/net/html"
+)
+
+func TestSinks(t *testing.T) {
+	vals := []string{"plain", "it's", "x' onmouseover='alert(1)", "\" autofocus onfocus=\"alert(1)", "'><script>alert(1)</script>", "</div><script>alert(1)</script>", "a&amp;b", "a<b>c"}
+	comps := map[string]func(string) templ.Component{"Text": Text, "Attr": Attr, "AttrJSON": AttrJSON, "AttrSprint": AttrSprint, "AttrCond": AttrCond, "AttrMixed": AttrMixed}
+	for name, c := range comps {
+		for _, v := range vals {
+			var b bytes.Buffer
+			if err := c(v).Render(context.Background(), &b); err != nil {
+				continue
+			}
+			z := html.NewTokenizer(strings.NewReader(b.String()))
+			starts, scripts := 0, 0
+			extra := ""
+			for {
+				tt := z.Next()
+				if tt == html.ErrorToken {
+					break
+				}
+				tok := z.Token()
+				if tt == html.StartTagToken || tt == html.SelfClosingTagToken {
+					starts++
+					if tok.Data == "script" {
+						scripts++
+					}
+					for _, a := range tok.Attr {
+						switch a.Key {
+						case "id", "data-v", "title", "disabled":
+						default:
+							extra = a.Key
+						}
+					}
+				}
+			}
+			if starts != 1 || scripts != 0 || extra != "" {
+				fmt.Printf("GEN-SINK-BROKEN template %s with the value %q renders %q: an HTML5 tokenizer sees %d start tags, %d script elements, unexpected attribute %q\n", name, v, b.String(), starts, scripts, extra)
+				return
+			}
+		}
+	}
+	fmt.Println("GEN-SINK-OK")
+}
+`
+	os.WriteFile(filepath.Join(dir, "sinks_test.go"), []byte(test), 0o644)
+	run := func(args ...string) (string, error) {
+		cmd := exec.Command("go", args...)
+		cmd.Dir = scratch
+		cmd.Env = goEnv()
+		out, err := cmd.CombinedOutput()
+		return string(out), err
+	}
+	if out, err := run("run", "./cmd/corpusgen", filepath.Join(scratch, "corpus")); err != nil {
+		return &ReplayResult{Input: input, Detail: "REPLAY-NOT-REPRODUCED (replay harness error: corpusgen: " + firstLines(out, 4) + ")"}
+	}
+	out, _ := run("test", "-v", "-vet=off", "-count=1", "-run", "TestSinks", "./corpus/sinks/")
+	for _, l := range strings.Split(out, "\n") {
+		if rest, ok := strings.CutPrefix(l, "GEN-SINK-BROKEN "); ok {
+			return &ReplayResult{Confirmed: true, Input: input, Detail: "REPLAY-CONFIRMED " + rest}
+		}
+	}
+	if strings.Contains(out, "GEN-SINK-OK") {
+		return &ReplayResult{Input: input, Detail: "REPLAY-NOT-REPRODUCED 6 generated sink shapes x 8 adversarial values keep the structure the template author wrote"}
+	}
+	return &ReplayResult{Input: input, Detail: "REPLAY-NOT-REPRODUCED (replay harness error: " + firstLines(out, 6) + ")"}
+}
+
 func replayC01(r *Run, o *Obligation) *ReplayResult {
+	if strings.HasPrefix(o.Name, "generator.") || strings.Contains(o.Name, "#sink") {
+		if r.replayCache == nil {
+			r.replayCache = map[string]*ReplayResult{}
+		}
+		if rr, ok := r.replayCache["C01gen"]; ok {
+			return rr
+		}
+		rr := replayC01Gen(r)
+		r.replayCache["C01gen"] = rr
+		return rr
+	}
 	if r.replayOut == nil {
 		r.replayOut = map[string]string{}
 	}
